@@ -17,6 +17,8 @@ pub async fn sweep(h: &mut Hyb, via: &'static str) -> Vec<Res> {
             Ok(Some(e)) => {
                 let r = judge(&h.case, k, e.value(), via);
                 crate::hybscn::note_source(k, e.source());
+                // (the policy oracle follows where each resident copy came from and how old its block was)
+                hist::ev("h_get", k, r.ver as u64, crate::hybscn::src(e.source()) | (crate::hybscn::age_of(&e) << 8));
                 hist::ev("sweep_get", k, r.ver as u64, r.tag as u64);
                 out.push(r);
             }
@@ -353,9 +355,64 @@ fn rejected(case: &Case, k: u64) -> bool {
 // ---------------------------------------------------------------------------------------------------------------
 // C12: disk writes happen exactly when policy and placement advice say so.
 
+/// "An entry loaded from disk is rewritten only if its block was already marked for imminent reclaim": with a FIFO picker
+/// at most floor(ratio x blocks) blocks are on probation at any time, and the marks only change when a block is
+/// reclaimed. So between two reclaims the disk hits reported `Age::Old` can come from at most that many distinct
+/// blocks (a mark that survives its block's reuse shows up as too many).
+fn c12_probation_bound(case: &Case, evs: &[hist::Ev]) {
+    use crate::simdev;
+    let ratio = match case.get("picker") {
+        1 => return, // every block is on probation
+        2 => 0.0,
+        3 => 0.34,
+        _ => 0.1,
+    };
+    let g = crate::hybscn::geo(case);
+    let first_block = if g.tomb { 1 } else { 0 };
+    let bound = (g.blocks as f64 * ratio).floor() as usize;
+    let ews = entry_writes();
+    // event time of every block clean (zero page at offset 0)
+    let cleans: Vec<u64> = simdev::DISK.with(|d| {
+        d.borrow().writes.iter().filter(|w| w.part >= first_block && w.offset == 0 && w.data.len() == simdev::PAGE && w.data.iter().all(|b| *b == 0)).filter_map(|w| w.apply_seq).collect()
+    });
+    // a restart forgets the marks as well
+    let cleans: Vec<u64> = {
+        let mut c = cleans;
+        c.extend(evs.iter().filter(|e| e.kind == "reopened").map(|e| e.seq));
+        c.sort();
+        c
+    };
+    let mut old_blocks: std::collections::BTreeSet<usize> = Default::default();
+    let mut epoch = 0usize;
+    for e in evs.iter().filter(|e| (e.kind == "h_get" || e.kind == "h_fetch") && (e.c & 0xff) == 3) {
+        let ep = cleans.iter().filter(|c| **c < e.seq).count();
+        if ep != epoch {
+            epoch = ep;
+            old_blocks.clear();
+        }
+        if e.c >> 8 != 2 {
+            continue;
+        }
+        // the block the served copy lives in: the latest applied write of that (key, version) before the lookup
+        let Some(w) = ews.iter().filter(|w| w.key == Some(e.a) && w.ver == Some(e.b as u32) && w.apply_seq.map(|a| a < e.seq).unwrap_or(false)).max_by_key(|w| w.apply_seq) else { continue };
+        old_blocks.insert(w.part);
+        hist::probe("c12_old_age_hit_located");
+        if old_blocks.len() > bound {
+            hist::violation(
+                "C12",
+                "too-many-blocks-on-probation",
+                format!("disk hits reported Age::Old from {} distinct blocks ({:?}) without a reclaim in between, but the picker puts at most {bound} of {} blocks on probation", old_blocks.len(), old_blocks, g.blocks),
+                &[("picker", case.get("picker").to_string())],
+            );
+            return;
+        }
+    }
+}
+
 pub fn c12(case: &Case) {
     use std::collections::{BTreeMap, BTreeSet};
     let evs = hist::events_clone();
+    c12_probation_bound(case, &evs);
     let writes = entry_writes();
     let woi = case.get("policy") == 1;
     let v = |rule: &str, detail: String, extra: &[(&str, String)]| {
@@ -426,7 +483,9 @@ pub fn c12(case: &Case) {
                 let (reason, k, ver) = (e.a, e.b, e.c as u32);
                 let age = resident.remove(&(k, ver));
                 let l = loc.get(&(k, ver)).copied().unwrap_or(0);
-                if reason == 0 && !woi && l == 0 && closed_at.is_none() && !rejected(case, k) {
+                // a copy that was loaded from a block already marked for reclaim (Age::Old) is rewritten when evicted,
+                // whatever its placement class (an on-disk advised entry is resident after a disk hit like any other)
+                if reason == 0 && !woi && (l == 0 || (l == 2 && age == Some(2))) && closed_at.is_none() && !rejected(case, k) {
                     if matches!(age, Some(0) | Some(2) | None) {
                         lic.entry((k, ver)).or_default().push((e.seq, "evicted"));
                         last_licence_of_hash.insert(crate::hybscn::hash_of(hmode, k), (k, ver));
@@ -436,11 +495,21 @@ pub fn c12(case: &Case) {
                 }
             }
             "shed" => {
-                // the entry could not be written: its licence is void
-                if let Some(kv) = last_licence_of_hash.get(&e.a) {
-                    if let Some(l) = lic.get_mut(kv) {
+                // the entry could not be written: its licence is void. The probe carries the engine sequence of the
+                // dropped entry (c = sequence + 1), which the hand-off attribution maps back to (key, version); a shed
+                // at the queue threshold happens inside the hand-over itself (no sequence yet): the last licence
+                let by_seq = if e.c > 0 {
+                    ST.with(|s| s.borrow().handoffs.iter().find(|(hk, _, hs, _)| crate::hybscn::hash_of(hmode, *hk) == e.a && *hs == e.c - 1).map(|(k, v, _, _)| (*k, *v)))
+                } else {
+                    None
+                };
+                let target = by_seq.or_else(|| if e.c == 0 { last_licence_of_hash.get(&e.a).copied() } else { None });
+                if let Some(kv) = target {
+                    if let Some(l) = lic.get_mut(&kv) {
                         l.pop();
                     }
+                } else if e.c > 0 {
+                    hist::probe("c12_shed_of_unattributed_entry");
                 }
             }
             "close_ret" => {
@@ -526,7 +595,14 @@ pub fn c12(case: &Case) {
             if let Some((_, ret)) = barriers.iter().find(|(inv, _)| *inv > sub) {
                 hist::probe("c12_licence_with_barrier");
                 let written = writes.iter().any(|w| w.key == Some(*k) && w.ver == Some(*ver) && w.apply_seq.map(|a| a < *ret).unwrap_or(false));
-                if !written {
+                // a shed voids the licence of the LAST hand-over of that hash (above); when several entries of one
+                // hash were queued and shed, the others are recognised here: a shed of the hash between the hand-over
+                // and the barrier
+                let h = crate::hybscn::hash_of(hmode, *k);
+                let shed_in_window = evs.iter().any(|e| e.kind == "shed" && e.a == h && e.seq > *t && e.seq < *ret);
+                if !written && shed_in_window {
+                    hist::probe("c12_missing_write_excused_by_shed");
+                } else if !written {
                     v(
                         "missing-write",
                         format!("entry ({k},v{ver}) was handed to the disk tier ({cause}) at {t} but no device write of it completed before wait()/close() returned at {ret}"),
